@@ -60,6 +60,7 @@ inductive Ev
   | discard (t : Task)                       -- discard callback invoked for t
   | ret (i : Nat) (rc : Rc) (flag : Bool)    -- call returned (flag = *out_scheduled)
   | block (i : Nat)                          -- client went to wait for room in the queue
+  | join (i : Nat)                           -- client entered pthread_join of a worker
   | exit (k : Nat)                           -- worker thread function returned
   | spawn (k : Nat)                          -- pthread_create of a further thread (iwtp overflow)
   | bcast (queueCond : Bool)                 -- pthread_cond_broadcast
@@ -218,7 +219,7 @@ def clientStep (s : Stw) (i : Nat) : Stw × List Ev :=
         let s' := { s' with shutdown := true, w := wakeWorker s'.w,
                             clients := if s'.blocking then s'.clients.map wakeClient else s'.clients }
         ({ s' with clients := setAt s'.clients i (.joining 0) },
-         rep.map .discard ++ .bcast false :: (if s'.blocking then [.bcast true] else []))
+         rep.map .discard ++ .bcast false :: (if s'.blocking then [.bcast true, .join i] else [.join i]))
 
 def step (s : Stw) : Label → Stw × List Ev
   | .call i c =>
@@ -307,7 +308,7 @@ def clientStep (s : Tp) (i : Nat) (sel : Nat) : Tp × List Ev :=
   | .blocked _ _ => (s, [.disabled])
   | .joining k =>
     if s.worker (s.joinlist.getD k 0) = .exited then
-      if k + 1 < s.joinlist.length then ({ s with clients := setAt s.clients i (.joining (k + 1)) }, [])
+      if k + 1 < s.joinlist.length then ({ s with clients := setAt s.clients i (.joining (k + 1)) }, [.join i])
       else ({ s with freed := true }.ret i .ok)
     else (s, [.disabled])
   | .enter c =>
@@ -338,7 +339,7 @@ def clientStep (s : Tp) (i : Nat) (sel : Nat) : Tp × List Ev :=
       else
         let s := if wait then s else { s with dropped := s.dropped ++ s.queue, queue := [], qsize := 0 }
         ({ s with shutdown := true, joinlist := s.threads, ws := s.ws.map wakeWorker,
-                  clients := setAt s.clients i (.joining 0) }, [.bcast false])
+                  clients := setAt s.clients i (.joining 0) }, [.bcast false, .join i])
     | _ => s.ret i .invalidState     -- not part of the pool's API
 
 def step (s : Tp) : Label → Tp × List Ev
